@@ -36,9 +36,7 @@ def text_default(evs, clauses):
     return "case origin=%s mode=%s differ=%s clauses=%s" % (b.get("origin"), b.get("mode"), b.get("differ"), sorted(clauses))
 
 
-def model_disagreements(tr):
-    """cases in which an algorithm-layer model (clauses MODEL.*) and the real code disagree"""
-    return [f for f in tr["failed"] if any(c.startswith("MODEL.") for c in f["clauses"])]
+from vlib import model_disagreements, gate_model
 
 
 def run_family(run, pid, family, prefixes, extra=None, sig=None, text=None, selftests=(), module="SyncTrace",
@@ -73,10 +71,7 @@ def run_family(run, pid, family, prefixes, extra=None, sig=None, text=None, self
         f3, md3 = more(run)
         fails += f3
         md += md3
-    if md and not any(f.get("signature") is None for f in fails):
-        # the model and the code disagree although no clause of the property fired: neither a violation nor a pass
-        raise Inconclusive("algorithm-layer model and code disagree in %d case(s) without a violation, e.g. case %s %s"
-                           % (len(md), md[0]["case"], md[0]["clauses"]))
+    gate_model(md, fails)
     return finish(run, level, fails, assumptions=assumptions or [])
 
 
